@@ -588,6 +588,10 @@ mod render {
     }
 }
 
+#[cfg(zcash_librustzcash_verif)]
+#[doc(hidden)]
+pub mod verif_hooks;
+
 mod parse {
     use core::fmt::Debug;
 
